@@ -489,6 +489,88 @@ def transitive(cd, bb):
     return out
 
 
+def check_convert(res, facts):
+    """projective -> affine: Jacobian (X, Y, Z) -> (X/Z^2, Y/Z^3), extended Edwards (X, Y, T, Z) -> (X/Z, Y/Z), the
+    identity to the identity; both the single conversion and the per-element kernel of normalize_batch (which receives
+    the batch-inverted z)"""
+    rule = res.rule("R-POLY.convert", "projective-to-affine conversions: (X/Z^2, Y/Z^3) for Jacobian, (X/Z, Y/Z) for extended Edwards, identity to identity", 4)
+    for label, PH, AH, mk, want in (("SW", SWP, SWA, sw_proj, lambda: (V("p.x") / (V("p.z") * V("p.z")), V("p.y") / (V("p.z") * V("p.z") * V("p.z")))),
+                                    ("TE", TEP, TEA, te_proj, lambda: (V("p.x") / V("p.z"), V("p.y") / V("p.z")))):
+        fs = [f for f in facts.fns(unit="ws", crate="ark_ec") if f.kind != "Closure" and f.name == "from" and f.self_head == AH and f.trait_impl == "core::convert::From" and PH in (((f.impl or {}).get("trait_args") or ["", ""])[-1])]
+        key = "%s::Affine::from(Projective)" % label
+        if not fs:
+            rule.bad(key, "kernel not found")
+        else:
+            fn = fs[0]
+            ex, paths = run_paths(facts, fn, [mk("p")], models(1))
+            general = id_paths = 0
+            problems = []
+            for p in paths:
+                if "panic" in p.flags or "diverge" in p.flags:
+                    continue
+                c = coords(ex, p.ret, 3 if label == "SW" else 2)
+                def is_zero_sub(name):
+                    v_ = p.st.subst.get(name)
+                    return v_ is not None and (v_.is_zero() if hasattr(v_, "is_zero") else False)
+                # the Edwards identity (0, 1) is an ordinary affine point: no special arm
+                zero_assumed = is_zero_sub("p.z") if label == "SW" else False
+                if zero_assumed:
+                    # identity arm: the canonical affine identity
+                    if label == "SW":
+                        ok = c is not None and c[2] is True
+                    else:
+                        ok = c is not None and c[0] is not None and c[1] is not None and c[0].is_zero() and c[1].equals(ONE)
+                    if not ok:
+                        problems.append("the identity (Z = 0 / point is_zero) is not mapped to the affine identity")
+                    id_paths += 1
+                    continue
+                if c is None or c[0] is None or c[1] is None:
+                    problems.append("result coordinates are not ring values on a general path")
+                    continue
+                wx, wy = want()
+                wx, wy = apply_subst(wx, p.st), apply_subst(wy, p.st)
+                if not (c[0].equals(wx) and c[1].equals(wy)):
+                    problems.append("affine coordinates are (%s, %s), expected (%s, %s)" % (short(c[0], 80), short(c[1], 80), short(wx, 60), short(wy, 60)))
+                if label == "SW" and c[2] is not False:
+                    problems.append("a finite point is flagged as infinity")
+                general += 1
+            if not general:
+                problems.append("no general-position path")
+            if not id_paths and label == "SW":
+                problems.append("no identity arm")
+            (rule.bad if problems else rule.ok)(key, "; ".join(sorted(set(problems))[:3]) if problems else "%d general path(s) give the affine coordinates, %d identity path(s) give the identity" % (general, id_paths), fn.loc)
+        # normalize_batch kernel: closure (g, zinv)
+        nb = [f for f in facts.fns(unit="ws", crate="ark_ec") if f.kind == "Closure" and (f.d.get("parent") or "").endswith("normalize_batch") and PH.rsplit("::", 2)[0].rsplit("::", 1)[-1] in f.id and f.d["argc"] == 2 and f.local_ty(2).startswith("(")]
+        key = "%s::normalize_batch kernel" % label
+        if not nb:
+            rule.bad(key, "kernel not found")
+            continue
+        clo = nb[0]
+        arg = SX.Obj(adt="tuple", fields={0: ref(mk("p")), 1: SX.Obj(name="zi")})
+        env = SX.Obj(adt="closure", variant=clo.id, fields={})
+        a1 = SX.Ref(SX.Cell(env)) if clo.local_ty(1).startswith("&") else env
+        ex, paths = run_paths(facts, clo, [a1, arg], models(1))
+        zi = V("zi")
+        wantk = (V("p.x") * zi * zi, V("p.y") * zi * zi * zi) if label == "SW" else (V("p.x") * zi, V("p.y") * zi)
+        general = 0
+        problems = []
+        for p in paths:
+            if "panic" in p.flags or "diverge" in p.flags:
+                continue
+            if any(c_.kind in ("zero", "eq") and not c_.neg for c_ in p.assume) or p.st.subst:
+                continue
+            c = coords(ex, p.ret, 2)
+            if c is None or c[0] is None or c[1] is None:
+                problems.append("kernel result not evaluable")
+                continue
+            if not (c[0].equals(wantk[0]) and c[1].equals(wantk[1])):
+                problems.append("kernel gives (%s, %s) from the inverted z, expected (%s, %s)" % (short(c[0], 60), short(c[1], 60), short(wantk[0], 40), short(wantk[1], 40)))
+            general += 1
+        if not general:
+            problems.append("no general-position path")
+        (rule.bad if problems else rule.ok)(key, "; ".join(sorted(set(problems))[:3]) if problems else "(x, y) from 1/z: %s" % ("(X zi^2, Y zi^3)" if label == "SW" else "(X zi, Y zi)"), clo.loc)
+
+
 def run(ctx, res):
     facts = ctx.facts(["ws"])
     res.analysed = facts.stats()
@@ -496,6 +578,7 @@ def run(ctx, res):
     check_te(res, facts)
     check_eq(res, facts)
     check_dispatch(res, facts)
+    check_convert(res, facts)
     return {
         "level": "proof",
         "explanation": "Each obligation is an identity of rational functions over Z in the coordinates of the operands (and the curve coefficients as symbols): the MIR of the formula block is evaluated symbolically on every general-position path (configuration arms a = 0 / a != 0 and base-field degree split) and compared with the textbook affine group law through the coordinate maps (X/Z^2, Y/Z^3) resp. (X/Z, Y/Z) with T = XY/Z; plus structural rules for exceptional-case dispatch, representation-independent equality, on-curve tests and operators defined through other operators. Completeness of the unified Edwards law on the prime-order subgroup and batch normalisation are NOT decided.",
